@@ -77,3 +77,18 @@ impl<V> HashTable<ZobristHash, V> {
 //         assert_eq!(sut.entry_map.len(), len);
 //     }
 // }
+
+/// Test-only public handle over the private table (verification hook)
+#[cfg(inkayaku_verif)]
+pub struct VerifTable(HashTable<ZobristHash, u64>);
+
+#[cfg(inkayaku_verif)]
+impl VerifTable {
+    pub fn new(capacity: usize) -> Self { Self(HashTable::new(capacity)) }
+    pub fn put(&mut self, key: ZobristHash, value: u64) { self.0.put(key, value); }
+    pub fn get(&self, key: ZobristHash) -> Option<u64> { self.0.get(key).copied() }
+    pub fn clear(&mut self) { self.0.clear(); }
+    pub fn len(&self) -> usize { self.0.len() }
+    pub fn load_factor(&self) -> f32 { self.0.load_factor() }
+    pub fn queue_len(&self) -> usize { self.0.entry_list.len() }
+}
